@@ -81,7 +81,8 @@ def build():
     for R in (3, 4):
         add('ctr_dec2_wait', 'counter_basic.c', ['dec_twice', 'waiter', 'setup', 'final_check'], R, CV_UNITS, ninit=1, nfinal=1, pools=dict(CTR), excl=NOTE_FN + CVW_FN, timeout=3000)
         add('ctr_dec2_timed', 'counter_basic.c', ['dec_twice', 'waiter_timed', 'setup', 'final_check'], R, CV_UNITS, ninit=1, nfinal=1, pools=dict(CTR), excl=NOTE_FN + CVW_FN, timeout=3000)
-        add('ctr_passive_timed_dec', 'counter_basic.c', ['waiter_timed1', 'dec_once', 'setup_passive', 'final_passive'], R, CV_UNITS, ninit=1, nfinal=1, pools=dict(CTR), excl=NOTE_FN + CVW_FN, timeout=3000)
+        add('ctr_passive_timed_dec', 'counter_basic.c', ['waiter_timed1', 'dec_once', 'setup_passive', 'final_passive'], R, CV_UNITS, ninit=1, nfinal=1, pools=dict(CTR), excl=NOTE_FN + CVW_FN, timeout=3000,
+            unroll={'*': 1, 'nsync_wait_n': 2, 'nsync_counter_add': 3})
         add('ctr_dec_dec_wait', 'counter_basic.c', ['dec', 'dec', 'waiter', 'setup', 'final_check'], R, CV_UNITS, ninit=1, nfinal=1, pools=dict(CTR), excl=NOTE_FN + CVW_FN, timeout=6000)
         add('ctr_dec_dec_timed', 'counter_basic.c', ['dec', 'dec', 'waiter_timed', 'setup', 'final_check'], R, CV_UNITS, ninit=1, nfinal=1, pools=dict(CTR), excl=NOTE_FN + CVW_FN, timeout=6000)
         add('ctr_dec_dec_reader', 'counter_basic.c', ['dec', 'dec', 'reader', 'setup', 'final_check'], R, CV_UNITS, ninit=1, nfinal=1, pools=dict(CTR), excl=NOTE_FN + CVW_FN, timeout=6000)
@@ -137,17 +138,20 @@ def build():
         add('dbg_locker_rlocker_mudebug', 'debug_conc.c', ['locker', 'rlocker', 'mu_debugger', 'final_check'], R, DBG_UNITS, nfinal=1, excl=ONLY_MU, extra=NOOP, unroll=DU, timeout=6000)
         add('dbg_cvwaiter_signaller_cvdebug', 'debug_conc.c', ['cv_waiter', 'cv_signaller', 'cv_debugger', 'final_check'], R, DBG_UNITS, nfinal=1, excl=ONLY_MU, extra=NOOP, unroll=DU, timeout=6000)
     # ---- C03: happens-before from the declared orders (vector clocks in the runtime)
-    HB = {'hb': True}
+    HB = {'hb': True, 'hb_objects': ['x', 'flag', 'y', 'z', 'v']}    # race oracle on the client data; the '_all' variants also check every nsync field
     def hb(name, threads, R, units, **kw):
         ex = dict(HB); ex.update(kw.pop('extra', {}))
         add('hb_' + name, 'hb_basic.c', threads, R, units, extra=ex, defines=['VF_HB'] + kw.pop('defines', []), **kw)
     for R in (3, 4):
         hb('w_w', ['t_writer', 't_writer', 'final_x'], R, MU_UNITS, nfinal=1, timeout=3000)
+        hb('w_w_all', ['t_writer', 't_writer', 'final_x'], R, MU_UNITS, nfinal=1, timeout=6000, extra={'hb_objects': None})
+        hb('w_r_all', ['t_writer', 't_reader', 'final_x'], R, MU_UNITS, nfinal=1, timeout=6000, extra={'hb_objects': None})
         hb('w_r', ['t_writer', 't_reader', 'final_x'], R, MU_UNITS, nfinal=1, timeout=3000)
         hb('w_try', ['t_writer', 't_trywriter', 'final_x'], R, MU_UNITS, nfinal=1, timeout=3000)
         hb('w2_w', ['t_writer2', 't_writer', 'final_x'], R, MU_UNITS, nfinal=1, timeout=3000)
         hb('w_w_w', ['t_writer', 't_writer', 't_writer', 'final_x'], R, MU_UNITS, nfinal=1, timeout=9000)
-        hb('passive_w_w', ['t_writer', 't_writer', 'setup_passive_writer', 'final_x'], R, MU_UNITS, ninit=1, nfinal=1, timeout=6000)
+        hb('passive_w_w', ['t_writer', 't_writer', 'setup_passive_writer', 'final_x'], R, MU_UNITS, ninit=1, nfinal=1, timeout=6000, unroll={'*': 1, 'nsync_mu_unlock_slow_': 2},
+           defines=['VF_NO_DEADLOCK_CHECK'])    # the passive queued writer never runs, so once it has been chosen as designated waker later sleepers are not woken: only the happens-before oracle is meaningful here
         hb('cv', ['t_cv_waiter', 't_cv_signaller', 'final_x'], R, CV_UNITS, nfinal=1, excl=ONLY_MU, timeout=6000)
         hb('mw', ['t_mw_waiter', 't_mw_setter', 'final_x'], R, CV_UNITS, nfinal=1, excl=ONLY_MU, timeout=6000)
         hb('once', ['t_once', 't_once', 'final_x'], R, ONCE_UNITS, nfinal=1, excl=ONLY_MU, extra={'max_cells': 400}, timeout=6000)
@@ -177,7 +181,7 @@ def build():
     E2U = CV_UNITS + ['internal/debug.c']
     E2X = {'atomic_hooks': {'pre': 'vf_env', 'write': 'vf_guar'}, 'noop': ['emit_print', 'emit_c'], 'max_cells': 400, 'tls_init': {'waiter_for_thread': ['MEW']}}
     # one context (R=1), every loop unrolled U times: with a single thread there is nothing to interleave, the environment acts inside the hooks
-    for fn in ['h_lock', 'h_rlock', 'h_trylock', 'h_rtrylock', 'h_unlock', 'h_runlock', 'h_unlock_nowake', 'h_mu_wait', 'h_cv_wait', 'h_debug', 'h_cv_signal', 'h_cv_debug']:
+    for fn in ['h_lock', 'h_rlock', 'h_trylock', 'h_rtrylock', 'h_unlock', 'h_runlock', 'h_unlock_nowake', 'h_mu_wait', 'h_cv_wait', 'h_mu_wait_w', 'h_mu_wait_r', 'h_cv_wait_w', 'h_cv_wait_r', 'h_debug', 'h_cv_signal', 'h_cv_debug']:
         for U in (2, 3):
             sc = add('e2_%s_U%d' % (fn, U), 'e2_word.c', [fn], 1, E2U, excl=ONLY_MU, extra=E2X, pools={'extra_waiters': 0}, timeout=1800, unroll={'*': U, 'setup': 3, 'setup_cv': 3, 'rely_ok': 3, 'emit_word': 10, 'emit_waiters': 4},
                      defines=['VF_NO_DEADLOCK_CHECK'])
